@@ -105,8 +105,12 @@ Fence(o) ==
   /\ UNCHANGED <<rel, pend>>
 
 \* ---- non-atomic cells
+\* a receive-side slot is created uninitialised (owner_slot event with a = 2): reading or consuming it before anybody wrote
+\* it is a read of an uninitialised slot
+Uninit == <<0, -1>>
+IsInit(c) == Get(wr, c, NoW) # Uninit
 ReadCell(c) ==
-  /\ CellOK(c)
+  /\ CellOK(c) /\ IsInit(c)
   /\ HB(Get(wr, c, NoW))                                       \* NoRace: the last write happens-before this read
   /\ rd' = Put(rd, c, [Get(rd, c, Zero) EXCEPT ![T] = Me[T] + 1]) /\ UNCHANGED wr
 WriteCell(c) ==
@@ -157,7 +161,13 @@ Step ==
             [] E.k = "fence" -> Fence(E.a) /\ UNCHANGED <<tok, wr, rd, liveA, deadA, wk>>
             [] E.k \in {"ptr_read", "field_read"} \/ (E.k = "owner_slot" /\ E.a = 0) ->
                  ReadCell(E.ad) /\ TickOnly /\ Revive /\ UNCHANGED <<rel, pend, tok, liveA, wk>>
-            [] E.k \in {"cell_get", "ptr_write", "field_write"} \/ (E.k = "owner_slot" /\ E.a = 1) ->
+            [] E.k = "owner_slot" /\ E.a = 2 ->           \* the slot starts a new life, uninitialised
+                 /\ CellOK(E.ad) /\ HB(Get(wr, E.ad, NoW)) /\ ReadsHB(E.ad)
+                 /\ wr' = Put(wr, E.ad, Uninit) /\ rd' = Put(rd, E.ad, Zero)
+                 /\ TickOnly /\ Revive /\ UNCHANGED <<rel, pend, tok, liveA, wk>>
+            [] E.k = "owner_slot" /\ E.a = 1 ->           \* assume_init_drop: consumes an initialised slot
+                 IsInit(E.ad) /\ WriteCell(E.ad) /\ TickOnly /\ Revive /\ UNCHANGED <<rel, pend, tok, liveA, wk>>
+            [] E.k \in {"cell_get", "ptr_write", "field_write"} ->
                  WriteCell(E.ad) /\ TickOnly /\ Revive /\ UNCHANGED <<rel, pend, tok, liveA, wk>>
             [] E.k = "dead" -> Death(E.ad) /\ TickOnly /\ UNCHANGED <<rel, pend, tok, wk>>
             [] E.k = "fut_dead" -> deadA' = deadA \cup {RgId} /\ UNCHANGED <<vc, rel, pend, tok, wr, rd, liveA, wk>>
